@@ -206,8 +206,13 @@ def run_unit(unit, repo='/repo', tier='quick', seed=0):
                 h = re.sub(r'^(impl|trait)(<[^>]*>)? ?', '', h)
                 h = re.sub(r'^.* for ', '', h)
                 q = re.sub(r'<.*$', '', h).split(':')[0].strip() + '::'
+            # keep the scan's fully qualified name (it knows enclosing `mod`s) when it names the same function
+            full = q + nm
+            for r0 in ranges:
+                if l0 <= r0[1] <= l1 and (r0[0] == full or r0[0].endswith('::' + full)):
+                    full = r0[0]
             ranges = [r for r in ranges if not (l0 <= r[1] <= l1)]
-            ranges.append((q + nm, l0, l1))
+            ranges.append((full, l0, l1))
 
     def fn_at(line):
         best = None
